@@ -165,18 +165,34 @@ def cache_op(caches, op):
         if kind == 'getitem':
             return ['val', canon(c[key(op[2])])]
         if kind == 'get':
+            if len(op) > 3 and op[3] == 'nodefault':      # default=None (no stored value is None)
+                r = c.get(key(op[2]))
+                return ['absent'] if r is None else ['val', canon(r)]
+            if len(op) > 3 and op[3] == 'kw':
+                r = c.get(key(op[2]), default=_MISSING)
+                return ['absent'] if r is _MISSING else ['val', canon(r)]
             r = c.get(key(op[2]), _MISSING)
             return ['absent'] if r is _MISSING else ['val', canon(r)]
         if kind == 'del':
             del c[key(op[2])]
             return ['none']
         if kind == 'pop':
+            if len(op) > 3 and op[3] == 'nodefault':
+                return ['val', canon(c.pop(key(op[2])))]
             r = c.pop(key(op[2]), _MISSING)
             return ['absent'] if r is _MISSING else ['val', canon(r)]
         if kind == 'setdefault':
             return ['val', canon(c.setdefault(key(op[2]), enc(op[3])))]
         if kind == 'update':
-            c.update({key(k): enc(v) for k, v in op[2]})
+            how = op[3] if len(op) > 3 else 'dict'
+            if how == 'pairs':
+                c.update([(key(k), enc(v)) for k, v in op[2]])
+            elif how == 'kw':
+                c.update(**{key(k): enc(v) for k, v in op[2]})
+            elif how == 'both':
+                c.update({key(k): enc(v) for k, v in op[2][:1]}, **{key(k): enc(v) for k, v in op[2][1:]})
+            else:
+                c.update({key(k): enc(v) for k, v in op[2]})
             return ['none']
         if kind == 'clear':
             c.clear()
@@ -193,6 +209,17 @@ def cache_op(caches, op):
             ks = sorted(int(k[1:]) for k in c.keys())
             assert len(c) == len(ks) and sorted(int(k[1:]) for k in iter(c)) == ks
             return ['keys', ks]
+        if kind == 'items':             # every (key, value) through the Mapping mixins items() / values()
+            its = sorted(([int(k[1:]), canon(v)] for k, v in c.items()), key=lambda kv: kv[0])
+            vals = sorted((canon(v) for v in c.values()), key=str)
+            if vals != sorted((v for _, v in its), key=str):
+                return ['items-values-differ', its, vals]
+            return ['items', its]
+        if kind == 'popitem':
+            k, v = c.popitem()
+            return ['item', int(k[1:]), canon(v)]
+        if kind == 'len':
+            return ['len', len(c), len(list(iter(c))), len(c.keys())]
         if kind == 'bool':
             return ['bool', bool(c)]
         if kind == 'sub':
@@ -290,6 +317,8 @@ def run_cache_body(case, res):
         if w is not None:
             res['worker_alive_after_close'] = w.worker_thread.is_alive()
         res['leftover'] = sorted(os.listdir(tmp))
+        import c20cov_impl
+        res['open_fds'] = c20cov_impl._open_fds(tmp)
         shutil.rmtree(tmp, ignore_errors=True)
     res['done'] = True
 
@@ -615,7 +644,8 @@ def run_fstore(case):
     tmp = tempfile.mkdtemp(prefix='c20f_', dir=os.environ.get('C20_TMP'))
     res = {'out': []}
     try:
-        root = find_subclass(Storage, case['storage']).open(tmpdir=tmp)
+        cls = find_subclass(Storage, case['storage'])
+        root = cls.open() if case['storage'] == 'Storage' else cls.open(tmpdir=tmp)
         conts = [((), root)]
         byp = {(): root}
         for op in case['ops']:
@@ -641,6 +671,16 @@ def run_fstore(case):
                 elif kind == 'close':
                     c.close()
                     o = ['none']
+                elif kind == 'exit':
+                    o = ['none'] if not c.__exit__(None, None, None) else ['truthy']
+                elif kind == 'with':
+                    with c as c2:
+                        same = c2 is c
+                    o = ['none'] if same else ['enter-returned-other']
+                elif kind == 'bool':
+                    o = ['bool', bool(c)]
+                elif kind == 'repr':
+                    o = ['repr', 'closed' in repr(c), type(c).__name__ in repr(c)]
                 else:
                     raise RuntimeError('unknown op %r' % (op,))
             except Exception as e:
@@ -648,14 +688,21 @@ def run_fstore(case):
             res['out'].append(o)
         final = []
         for path, c in conts:
-            d = str(c.directory)
             files = []
-            if os.path.isdir(d):
-                for fn in sorted(os.listdir(d)):
-                    if fn.endswith('.pkl'):
-                        with open(os.path.join(d, fn), 'rb') as f:
-                            files.append([int(fn[1:-4]), canon(pickle.load(f))])
-            final.append([list(path), bool(c._opened), sorted(files)])
+            if case['storage'] == 'Storage':            # in memory: the dict itself
+                files = [[int(k[1:]), canon(v)] for k, v in c.data.items()]
+            elif case['storage'] == 'Hdf5Storage':      # read through the group while the file is open
+                if c.h5gr:
+                    from tenpy.tools.hdf5_io import load_from_hdf5
+                    files = [[int(k[1:]), canon(load_from_hdf5(c.h5gr, k))] for k in c.h5gr.keys() if k[0] == 'k']
+            else:
+                d = str(c.directory)
+                if os.path.isdir(d):
+                    for fn in sorted(os.listdir(d)):
+                        if fn.endswith('.pkl'):
+                            with open(os.path.join(d, fn), 'rb') as f:
+                                files.append([int(fn[1:-4]), canon(pickle.load(f))])
+            final.append([list(path), bool(c._opened), sorted(files, key=lambda x: x[0])])
         res['final'] = final
         try:
             root.close()
@@ -663,6 +710,8 @@ def run_fstore(case):
         except Exception as e:
             res['final_close'] = type(e).__name__
         res['leftover'] = sorted(os.listdir(tmp))
+        import c20cov_impl
+        res['open_fds'] = c20cov_impl._open_fds(tmp)
         res['done'] = True
     finally:
         shutil.rmtree(tmp, ignore_errors=True)
@@ -682,7 +731,25 @@ def main():
     except Exception:
         pass
     res = [None] * len(cases)
-    if kind == 'events':
+    import c20cov_impl
+    if payload.get('cov', True):
+        try:
+            c20cov_impl.cov_start()
+        except Exception:
+            pass
+    if kind == 'evapi':
+        for i, c in enumerate(cases):
+            try:
+                res[i] = c20cov_impl.run_evapi(c)
+            except Exception:
+                res[i] = {'runner_error': traceback.format_exc()[-1200:]}
+    elif kind in ('openopts', 'worker'):
+        body = c20cov_impl.run_openopts_body if kind == 'openopts' else c20cov_impl.run_worker_body
+        from concurrent.futures import ThreadPoolExecutor
+        with ThreadPoolExecutor(max_workers=payload.get('threads', 1)) as ex:
+            futs = [ex.submit(run_with_deadline, body, c, payload.get('deadline', 4 * DEADLINE)) for c in cases]
+            res = [f.result() for f in futs]
+    elif kind == 'events':
         for i, c in enumerate(cases):
             try:
                 res[i] = run_events(c)
@@ -701,6 +768,11 @@ def main():
         with ThreadPoolExecutor(max_workers=par) as ex:
             futs = [ex.submit(run_with_deadline, body, c, payload.get('deadline', 4 * DEADLINE)) for c in cases]
             res = [f.result() for f in futs]
+    if payload.get('cov', True):
+        try:
+            res.append(c20cov_impl.cov_report())
+        except Exception:
+            res.append({'__cov__': {}, 'cov_error': traceback.format_exc()[-600:]})
     with open(sys.argv[2], 'w') as f:
         json.dump(res, f)
         f.flush()
